@@ -1,0 +1,25 @@
+//go:build verif
+
+// Contracts for package sourcerunner, checked by /verif (govc). Comments only:
+// the verif tag cannot change behaviour.
+package sourcerunner
+
+// ---- source positions and barriers (C16). Reading, cursor snapshots and the forwarding of
+// barriers all happen on the processEvents goroutine: when a barrier arrives, the split states
+// reported for its checkpoint id are the reader's cursors at that moment - after every record
+// read so far has been queued on the output stream - and the barrier is queued after them.
+
+// createCheckpoint reports the reader's current split states under the barrier's checkpoint
+// id and this runner's id.
+//@ func SourceRunner.createCheckpoint
+//@   property C16
+//@   nosafety
+//@   order OnSourceRunnerCheckpointComplete after Checkpoint
+//@   atcall OnSourceRunnerCheckpointComplete: arg1 != nil && arg1.CheckpointId == id && arg1.SourceRunnerId == r.ID && same(arg1.SplitStates, data)
+//@   ensures called(Checkpoint) && called(OnSourceRunnerCheckpointComplete)
+
+// processEvents: a barrier is answered by createCheckpoint with the barrier's own id.
+//@ func SourceRunner.processEvents
+//@   property C16
+//@   nosafety
+//@   atcall createCheckpoint: arg0 == barrier.CheckpointId
